@@ -166,7 +166,14 @@ def expected(case):
             E[it, ip] = spectrum(c, k, nf, nd, big=1e2 if case["fmt"] == "funwave" else 1e4)
     dtype = case.get("dtype", "float64")
     E = E.astype(dtype)
-    return dict(times=np.array(TIMES[:nt], dtype="datetime64[ns]"), freq=np.array(f, dtype=float), dir=np.array(d, dtype=float),
+    if case.get("tsweep"):
+        # a long record off every round raster: 10-minute steps from 23:40:07 on New Year's Eve, the last step irregular (+7 min 13 s)
+        t0 = np.datetime64("2021-12-31T23:40:07", "ns")
+        tt = t0 + np.arange(nt) * np.timedelta64(600, "s")
+        tt[-1] = tt[-2] + np.timedelta64(433, "s")
+    else:
+        tt = np.array(TIMES[:nt], dtype="datetime64[ns]")
+    return dict(times=tt, freq=np.array(f, dtype=float), dir=np.array(d, dtype=float),
                 lon=np.array(lon), lat=np.array(lat), glat=glat, glon=glon, E=E, classes=classes, npos=npos,
                 site=np.array(SITE_ID[:npos]) if kind == "site" else None)
 
@@ -727,6 +734,9 @@ def datasets(tier, seed):
                         for off in offs:
                             out.append(dict(layout=kind, n=n, nt=nt, nf=2, nd=nd, dirorder=order, off=off, extras=False,
                                             dtype="float32", seed=seed))
+    # long records (150 time stamps with odd seconds, across a year boundary): time encodings of every format
+    for (kind, n) in (("site", 1), ("site", 2)):
+        out.append(dict(layout=kind, n=n, nt=150, nf=2, nd=4, dirorder="sorted", off="plain", extras=False, dtype="float64", seed=seed, tsweep=True))
     # fine direction grids (1 and 1.5 degree bins: more values per frequency row than any fixed line width a writer may assume)
     for (kind, n) in (("site", 1), ("site", 2), ("grid", (1, 2))):
         for nt in (1, 2):
@@ -756,7 +766,7 @@ def octopus_datasets(tier, seed):
             out.append(dict(layout="site", n=1, nt=2, nf=2, nd=4, dirorder="sorted", off=off, extras=False, dtype="float32", seed=seed))
         return out
     for d in datasets(tier, seed):
-        if ((d["layout"] == "site" and d["n"] == 1) or (d["layout"] == "grid" and tuple(d["n"]) == (1, 1))) and d["nd"] != 240:  # whole degrees only
+        if ((d["layout"] == "site" and d["n"] == 1) or (d["layout"] == "grid" and tuple(d["n"]) == (1, 1))) and d["nd"] != 240 and not d.get("tsweep"):  # whole degrees, day-of-month time stamps only
             out.append(d)
     return out
 
@@ -844,7 +854,7 @@ def run(rep, tier, seed, parts=None):
         "nf {2,3} x nd {4,6} x direction order {sorted from 0, rotated half a turn, descending, shuffled (first two stored directions not "
         "neighbours)} x magnitude-class offset (spectrum k of a dataset is of class[(k+off)%6] out of {~1, all-zero, ~1e4, all-NaN, ~1e-8, "
         "mixed over 10 decades}; quick: off in range(0,6,N) for a dataset of N<6 spectra, {0,3} otherwise, so that every class occurs at "
-        "every shape; thorough: all 6 offsets) x {without, with wspd/wdir/dpt} plus 1 and 1.5 degree direction grids (nd 360 and 240; stations and a 1x2 grid, 1-2 times) and a float32 sub-product (quick: 2 times, nf 2, nd 4, "
+        "every shape; thorough: all 6 offsets) x {without, with wspd/wdir/dpt} plus two 150-step records with odd-second time stamps across a year boundary, plus 1 and 1.5 degree direction grids (nd 360 and 240; stations and a 1x2 grid, 1-2 times) and a float32 sub-product (quick: 2 times, nf 2, nd 4, "
         "sorted; thorough: full). Every spectrum of a dataset differs from every other one in every bin, so a permutation of positions, "
         "times, frequencies or directions is visible. Each dataset goes through every in-scope pair under every option: SWAN ASCII "
         "(plain/.gz x ntime None/1/2; read as_site for stations, and without as_site for >= 2 stations incl. co-located ones), JSON, wavespectra netCDF-3 (unpacked/packed x read_netcdf/"
